@@ -210,7 +210,7 @@ def run(ctx):
             ctx.replay(b, bs, opts=opts, par=8, timeout=7200)
         if not q:
             for sd in range(3, 6):
-                bs = ctx.tlc_sim('P2PRecv_MC', 'P2PRecv_Gen.cfg', num=n, depth=12, seed=ctx.seed * 10 + sd)
+                bs = ctx.tlc_sim('P2PRecv_MC', 'P2PRecv_Gen.cfg', num=400, depth=12, seed=ctx.seed * 10 + sd)
                 ctx.replay(b, bs, opts=dict(fuzz=6, salt=sd), par=8, timeout=7200)
             import random
             rnd = random.Random(ctx.seed)
